@@ -2,7 +2,9 @@ package main
 
 import (
 	"context"
+
 	"fmt"
+	qnet "github.com/lugu/qiloop/bus/net"
 	"math/rand"
 	"sync"
 	"sync/atomic"
@@ -204,6 +206,78 @@ func c04lent(c *wk.Ctx, i int, rng *rand.Rand) {
 		}
 		ok++
 	}
+	// two other PROCESSES call the lent objects through the server: message identifiers are unique within a
+	// process only, so two raw connections which number their calls alike (as two freshly started clients do)
+	// have calls with equal identifiers in flight for the same client-hosted object (bodies park). Each
+	// connection must be answered with what the helper computed for ITS arguments
+	twins := 0
+	{
+		conns := make([]*rawConn, 2)
+		okc := true
+		for x := range conns {
+			rcn, err := dialRaw(w.addr)
+			if err != nil {
+				okc = false
+				break
+			}
+			defer rcn.close()
+			if ok, err := rcn.authenticate("", ""); err != nil || !ok {
+				okc = false
+				break
+			}
+			conns[x] = rcn
+		}
+		type tw struct {
+			desk  int
+			token uint64
+			arg   string
+			id    uint32
+		}
+		for r := 0; okc && r < 4+rng.Intn(6); r++ {
+			k := rng.Intn(nDesk)
+			h, err := callers[0][k].Give()
+			if err != nil {
+				break // judged below, by the cancel phase
+			}
+			sid, oid := h.Proxy().ServiceID(), h.Proxy().ObjectID()
+			id := uint32(3 + 2*r)
+			var sent [2]tw
+			for x, rcn := range conns {
+				sent[x] = tw{k, uint64(1)<<40 | uint64(r)<<16 | uint64(x), genArg(rng, false), id}
+				if err := rcn.send(qnet.Call, sid, oid, 100, id, workArgs(sent[x].token, sent[x].arg)); err != nil {
+					okc = false
+				}
+			}
+			if !okc {
+				break
+			}
+			for x, rcn := range conns {
+				var f rawFrame
+				for {
+					f, err = rcn.recv(60 * time.Second)
+					if err != nil || f.H.ID == id {
+						break
+					}
+				}
+				if err != nil {
+					c.Inconclusive("lent", i, "twins: no answer on a raw connection: "+err.Error())
+					okc = false
+					break
+				}
+				atomic.AddInt64(&progress, 1)
+				if f.H.Type != qnet.Reply {
+					continue // an error is an allowed outcome
+				}
+				out, isStr := strResult(f.P)
+				if want := svc.HF(helpers[k].Name, sent[x].token, sent[x].arg); !isStr || out != want {
+					c.Viol("lent", i, "result=not-own/"+cfg+"/same-id-on-two-connections", fmt.Sprintf("two connections called the object lent to desk %d with message id %d at the same moment: connection %d was answered %q, its own arguments give %q", k, id, x, clipS(out), clipS(want)), detail)
+					return
+				}
+				twins++
+			}
+		}
+	}
+	c.Count("calls_with_equal_message_ids_from_two_connections_to_a_client_hosted_object", int64(twins))
 	// cancelled calls to the client-hosted objects themselves: a third party gets the references from the
 	// desks (give()), calls poke() - no parameter - through a context and cancels while the body is
 	// parked; a cancel must never run the method (again): executions <= calls issued
